@@ -113,12 +113,40 @@ theorem dropline (pre : Bytes) :
     simp only [l]
     rw [List.drop_append_of_le_length h2]
 
+theorem countLinesF_fuel (m : Nat) : ∀ (l : Bytes) (f1 f2 n : Nat), l.length ≤ m → l.length ≤ f1 → l.length ≤ f2 →
+    countLinesF f1 l n = countLinesF f2 l n := by
+  induction m with
+  | zero =>
+    intro l f1 f2 n hl _ _
+    have : l = [] := List.eq_nil_of_length_eq_zero (by omega)
+    subst this
+    cases f1 <;> cases f2 <;> simp [countLinesF]
+  | succ m ih =>
+    intro l f1 f2 n hl h1 h2
+    cases l with
+    | nil => cases f1 <;> cases f2 <;> simp [countLinesF]
+    | cons a t =>
+      cases f1 with
+      | zero => simp at h1
+      | succ f1 =>
+        cases f2 with
+        | zero => simp at h2
+        | succ f2 =>
+          simp only [countLinesF]
+          have hd : ((a :: t).drop (findeol (a :: t) + 2)).length ≤ t.length := by
+            simp only [List.length_drop, List.length_cons]; omega
+          simp only [List.length_cons] at hl h1 h2
+          exact ih _ f1 f2 (n + 1) (by omega) (by omega) (by omega)
+
 theorem countLines_cons (a : UInt8) (t : Bytes) (n : Nat) :
     countLines (a :: t) n = countLines ((a :: t).drop (findeol (a :: t) + 2)) (n + 1) := by
-  rw [countLines]
+  simp only [countLines, List.length_cons, countLinesF]
+  have hd : ((a :: t).drop (findeol (a :: t) + 2)).length ≤ t.length := by
+    simp only [List.length_drop, List.length_cons]; omega
+  exact countLinesF_fuel _ _ _ _ _ (Nat.le_refl _) hd (Nat.le_refl _)
 
 theorem countLines_nil (n : Nat) : countLines [] n = n := by
-  rw [countLines]
+  simp [countLines, countLinesF]
 
 /-- counting pass and parsing pass agree on a block ending in CRLF CRLF (or the final CRLF) -/
 theorem lines_ok (m : Nat) : ∀ (l : Bytes), l.length ≤ m → (l = [13, 10] ∨ ∃ pre, l = pre ++ term4) →
@@ -224,32 +252,39 @@ theorem growAlloc_bounds (alloc need max : Nat) (h : need ≤ max) :
   split <;> split <;> omega
 
 theorem addbody_ok (st : St) (piece : Bytes) (hinv : st.alloc ≤ st.max)
-    (h : st.body.length + piece.length ≤ st.max) :
-    ∃ st', addbody st piece = some st' ∧ st'.body = st.body ++ piece ∧ st'.max = st.max ∧
-      st'.body.length ≤ st'.alloc ∧ st'.alloc ≤ st'.max ∧ st'.status = st.status ∧ st'.chunked = st.chunked ∧
+    (h : st.bodylen + piece.length ≤ st.max) :
+    ∃ st', addbody st piece = some st' ∧
+      (st'.bodylen = st.bodylen + piece.length ∧ st'.bodyRev = piece.reverse ++ st.bodyRev) ∧ st'.max = st.max ∧
+      st'.bodylen ≤ st'.alloc ∧ st'.alloc ≤ st'.max ∧ st'.status = st.status ∧ st'.chunked = st.chunked ∧
       st'.readlen = st.readlen ∧ st'.hepos = st.hepos := by
   simp only [addbody]
   rw [if_pos h]
-  by_cases hg : st.body.length + piece.length > st.alloc
-  · have hb := growAlloc_bounds st.alloc (st.body.length + piece.length) st.max h
+  by_cases hg : st.bodylen + piece.length > st.alloc
+  · have hb := growAlloc_bounds st.alloc (st.bodylen + piece.length) st.max h
     simp only [if_pos hg]
     rw [if_pos hb.1]
-    exact ⟨_, rfl, rfl, rfl, by simp; exact hb.1, hb.2, rfl, rfl, rfl, rfl⟩
+    exact ⟨_, rfl, ⟨rfl, rfl⟩, rfl, by simp; exact hb.1, hb.2, rfl, rfl, rfl, rfl⟩
   · simp only [if_neg hg]
     rw [if_pos (by omega)]
-    exact ⟨_, rfl, rfl, rfl, by simp; omega, hinv, rfl, rfl, rfl, rfl⟩
+    exact ⟨_, rfl, ⟨rfl, rfl⟩, rfl, by simp; omega, hinv, rfl, rfl, rfl, rfl⟩
+
+theorem bodylen_ok {st st' : St} {piece : Bytes} (h0 : st.bodylen = st.bodyRev.length)
+    (hb : st'.bodylen = st.bodylen + piece.length ∧ st'.bodyRev = piece.reverse ++ st.bodyRev) :
+    st'.bodylen = st'.bodyRev.length := by
+  rw [hb.1, hb.2, h0]; simp; omega
 
 /-! ## the step invariant -/
 
 /-- parser-state invariant, per handler about to run -/
 def Inv (st : St) (h : Handler) : Prop :=
-  st.body.length ≤ st.alloc ∧ st.alloc ≤ st.max ∧
+  st.bodylen = st.bodyRev.length ∧
+  st.bodylen ≤ st.alloc ∧ st.alloc ≤ st.max ∧
   (h ≠ .readHeader → 100 ≤ st.status ∧ st.status ≤ 599) ∧
-  (h = .readHeader → st.body = []) ∧
+  (h = .readHeader → st.bodylen = 0) ∧
   (h = .chunkedHeader → st.chunked = true) ∧
   (h = .readData →
-    (st.chunked = true → 1 ≤ st.readlen ∧ st.body.length + st.readlen ≤ st.max + 2) ∧
-    (st.chunked = false → st.body.length + st.readlen ≤ st.max))
+    (st.chunked = true → 1 ≤ st.readlen ∧ st.bodylen + st.readlen ≤ st.max + 2) ∧
+    (st.chunked = false → st.bodylen + st.readlen ≤ st.max))
 
 /-- … together with what ties it to the snapshot: `hepos` lies inside the unconsumed bytes -/
 def InvBuf (st : St) (h : Handler) (buf : Bytes) : Prop :=
@@ -275,11 +310,11 @@ theorem invBuf_mono {st : St} {h : Handler} {b1 b2 : Bytes} (hi : InvBuf st h b1
 
 theorem readToEof_ok (st : St) (s : Status) (buf : Bytes) (hi : InvBuf st .readToEof buf) :
     MicroOK st buf (readToEof st s buf) := by
-  obtain ⟨⟨h1, h2, h3, _, _, _⟩, _⟩ := hi
+  obtain ⟨⟨h0, h1, h2, h3, _, _, _⟩, _⟩ := hi
   have hs := h3 (by decide)
   cases s with
   | err => simp [readToEof, MicroOK, RespOK]
-  | eof => simp only [readToEof, MicroOK, RespOK, mkResp]; exact ⟨hs.1, hs.2, by omega⟩
+  | eof => simp only [readToEof, MicroOK, RespOK, mkResp]; exact ⟨hs.1, hs.2, by simp; omega⟩
   | ok =>
     simp only [readToEof]
     rw [if_neg (by omega)]
@@ -289,7 +324,7 @@ theorem readToEof_ok (st : St) (s : Status) (buf : Bytes) (hi : InvBuf st .readT
       obtain ⟨st', he, hb, hm, ha1, ha2, hst, _, _, _⟩ := addbody_ok st buf h2 (by omega)
       rw [he]
       simp only [MicroOK]
-      refine ⟨by omega, by omega, hm, ⟨ha1, ha2, ?_, ?_, ?_, ?_⟩, ?_⟩
+      refine ⟨by omega, by omega, hm, ⟨bodylen_ok h0 hb, ha1, ha2, ?_, ?_, ?_, ?_⟩, ?_⟩
       · intro _; rw [hst]; exact hs
       · intro hc; cases hc
       · intro hc; cases hc
@@ -304,7 +339,7 @@ theorem eolLen_le (chunked : Bool) (readlen buflen : Nat) : eolLen chunked readl
 
 theorem readData_ok (st : St) (s : Status) (buf : Bytes) (hi : InvBuf st .readData buf) :
     MicroOK st buf (readData st s buf) := by
-  obtain ⟨⟨h1, h2, h3, _, _, h4⟩, _⟩ := hi
+  obtain ⟨⟨h0, h1, h2, h3, _, _, h4⟩, _⟩ := hi
   have hs := h3 (by decide)
   obtain ⟨hc1, hc2⟩ := h4 rfl
   simp only [readData]
@@ -315,7 +350,7 @@ theorem readData_ok (st : St) (s : Status) (buf : Bytes) (hi : InvBuf st .readDa
     have hbl2 : buflen ≤ st.readlen := by subst hbl; split <;> omega
     have hbl3 : buflen = st.readlen ∨ buflen = buf.length := by subst hbl; split <;> omega
     have hel := eolLen_le st.chunked st.readlen buflen
-    have hfit : st.body.length + (buf.take (buflen - eolLen st.chunked st.readlen buflen)).length ≤ st.max := by
+    have hfit : st.bodylen + (buf.take (buflen - eolLen st.chunked st.readlen buflen)).length ≤ st.max := by
       rw [List.length_take]
       cases hch : st.chunked with
       | false =>
@@ -336,7 +371,7 @@ theorem readData_ok (st : St) (s : Status) (buf : Bytes) (hi : InvBuf st .readDa
       · rename_i hch
         simp only [MicroOK]
         have := hc1 hch
-        refine ⟨by omega, hbl1, hm, ⟨ha1, ha2, ?_, ?_, ?_, ?_⟩, ?_⟩
+        refine ⟨by omega, hbl1, hm, ⟨bodylen_ok h0 hb, ha1, ha2, ?_, ?_, ?_, ?_⟩, ?_⟩
         · intro _; (try dsimp only); rw [hst]; exact hs
         · intro hc; cases hc
         · intro _; (try dsimp only); rw [hchk]; exact hch
@@ -344,13 +379,14 @@ theorem readData_ok (st : St) (s : Status) (buf : Bytes) (hi : InvBuf st .readDa
         · intro hc; cases hc
       · simp only [MicroOK, RespOK, mkResp]
         rw [hst]
-        exact ⟨hs.1, hs.2, by (try dsimp only); omega⟩
+        have := bodylen_ok h0 hb
+        exact ⟨hs.1, hs.2, by simp; omega⟩
     · rename_i hz
       simp only [beq_iff_eq] at hz
       have hz' : st.readlen - buflen ≠ 0 := hz
       simp only [MicroOK]
       have hall : buflen = buf.length := by omega
-      refine ⟨hbl1, ?_, hm, ⟨ha1, ha2, ?_, ?_, ?_, ?_⟩, ?_⟩
+      refine ⟨hbl1, ?_, hm, ⟨bodylen_ok h0 hb, ha1, ha2, ?_, ?_, ?_, ?_⟩, ?_⟩
       · have hw : 0 < WAITCAP := by decide
         (try dsimp only); split <;> omega
       · intro _; (try dsimp only); rw [hst]; exact hs
@@ -358,7 +394,7 @@ theorem readData_ok (st : St) (s : Status) (buf : Bytes) (hi : InvBuf st .readDa
       · intro hc; cases hc
       · intro _
         (try dsimp only)
-        rw [hchk, hb, List.length_append, List.length_take]
+        rw [hchk, hb.1, List.length_take]
         constructor
         · intro hch
           have := hc1 hch
@@ -372,7 +408,7 @@ theorem readData_ok (st : St) (s : Status) (buf : Bytes) (hi : InvBuf st .readDa
 
 theorem chunkedHeader_ok (st : St) (s : Status) (buf : Bytes) (hi : InvBuf st .chunkedHeader buf) :
     MicroOK st buf (chunkedHeader st s buf) := by
-  obtain ⟨⟨h1, h2, h3, _, h5, _⟩, _⟩ := hi
+  obtain ⟨⟨h0, h1, h2, h3, _, h5, _⟩, _⟩ := hi
   have hs := h3 (by decide)
   have hch := h5 rfl
   simp only [chunkedHeader]
@@ -395,7 +431,7 @@ theorem chunkedHeader_ok (st : St) (s : Status) (buf : Bytes) (hi : InvBuf st .c
       · rename_i clen _
         rw [if_neg (by omega)]
         split
-        · simp only [MicroOK, RespOK, mkResp]; exact ⟨hs.1, hs.2, by (try dsimp only); omega⟩
+        · simp only [MicroOK, RespOK, mkResp]; exact ⟨hs.1, hs.2, by simp; omega⟩
         · rename_i hnz
           rw [if_neg (by omega)]
           split
@@ -405,7 +441,7 @@ theorem chunkedHeader_ok (st : St) (s : Status) (buf : Bytes) (hi : InvBuf st .c
             · rename_i hfit _
               simp only [MicroOK]
               simp only [beq_iff_eq] at hnz
-              refine ⟨by omega, h2le, (by first | rfl | trivial), ⟨h1, h2, ?_, ?_, ?_, ?_⟩, ?_⟩
+              refine ⟨by omega, h2le, (by first | rfl | trivial), ⟨h0, h1, h2, ?_, ?_, ?_, ?_⟩, ?_⟩
               · intro _; exact hs
               · intro hc; cases hc
               · intro hc; cases hc
@@ -416,7 +452,7 @@ theorem chunkedHeader_ok (st : St) (s : Status) (buf : Bytes) (hi : InvBuf st .c
     · split
       · simp [MicroOK, RespOK]
       · simp only [MicroOK]
-        refine ⟨by omega, by omega, (by first | rfl | trivial), ⟨h1, h2, fun _ => hs, ?_, fun _ => hch, ?_⟩, ?_⟩
+        refine ⟨by omega, by omega, (by first | rfl | trivial), ⟨h0, h1, h2, fun _ => hs, ?_, fun _ => hch, ?_⟩, ?_⟩
         · intro hc; cases hc
         · intro hc; cases hc
         · intro hc; cases hc
@@ -441,7 +477,7 @@ theorem head_structure (pre : Bytes) : ∃ k l0 rest0,
 theorem gotHeaders_ok (ovf : Bool → Nat → Int) (st : St) (buf pre : Bytes)
     (hi : Inv st .readHeader) (hlen : (pre ++ term4).length ≤ buf.length) :
     MicroOK st buf (gotHeaders ovf st (pre ++ term4)) := by
-  obtain ⟨h1, h2, _, hbody, _, _⟩ := hi
+  obtain ⟨h0, h1, h2, _, hbody, _, _⟩ := hi
   have hb := hbody rfl
   obtain ⟨k, l0, rest0, hN, hS, hP⟩ := head_structure pre
   have hpos : 0 < (pre ++ term4).length := by simp [term4]
@@ -472,7 +508,7 @@ theorem gotHeaders_ok (ovf : Bool → Nat → Int) (st : St) (buf pre : Bytes)
             split
             · -- 1xx: back to reading headers
               simp only [MicroOK]
-              refine ⟨hpos, hlen, (by first | rfl | trivial), ⟨?_, h2, ?_, ?_, ?_, ?_⟩, ?_⟩
+              refine ⟨hpos, hlen, (by first | rfl | trivial), ⟨h0, ?_, h2, ?_, ?_, ?_, ?_⟩, ?_⟩
               · exact h1
               · intro hc; exact absurd rfl hc
               · intro _; exact hb
@@ -483,7 +519,7 @@ theorem gotHeaders_ok (ovf : Bool → Nat → Int) (st : St) (buf pre : Bytes)
               · simp only [MicroOK, RespOK]; exact ⟨hr.1, hr.2, by simp⟩
               · split
                 · simp only [MicroOK]
-                  refine ⟨hpos, hlen, (by first | rfl | trivial), ⟨h1, h2, fun _ => hr, ?_, fun _ => rfl, ?_⟩, ?_⟩
+                  refine ⟨hpos, hlen, (by first | rfl | trivial), ⟨h0, h1, h2, fun _ => hr, ?_, fun _ => rfl, ?_⟩, ?_⟩
                   · intro hc; cases hc
                   · intro hc; cases hc
                   · intro hc; cases hc
@@ -495,15 +531,15 @@ theorem gotHeaders_ok (ovf : Bool → Nat → Int) (st : St) (buf pre : Bytes)
                       · simp only [tooBig, MicroOK, RespOK]; exact ⟨hr.1, hr.2, trivial⟩
                       · rename_i hfit
                         simp only [MicroOK]
-                        refine ⟨hpos, hlen, (by first | rfl | trivial), ⟨h1, h2, fun _ => hr, ?_, ?_, ?_⟩, ?_⟩
+                        refine ⟨hpos, hlen, (by first | rfl | trivial), ⟨h0, h1, h2, fun _ => hr, ?_, ?_, ?_⟩, ?_⟩
                         · intro hc; cases hc
                         · intro hc; cases hc
                         · intro _
                           refine ⟨(fun hc => by cases hc), fun _ => ?_⟩
-                          (try dsimp only); rw [hb]; simp; omega
+                          (try dsimp only); omega
                         · intro hc; cases hc
                   · simp only [MicroOK]
-                    refine ⟨hpos, hlen, (by first | rfl | trivial), ⟨h1, h2, fun _ => hr, ?_, ?_, ?_⟩, ?_⟩
+                    refine ⟨hpos, hlen, (by first | rfl | trivial), ⟨h0, h1, h2, fun _ => hr, ?_, ?_, ?_⟩, ?_⟩
                     · intro hc; cases hc
                     · intro hc; cases hc
                     · intro hc; cases hc
@@ -538,8 +574,8 @@ theorem readHeader_ok (ovf : Bool → Nat → Int) (st : St) (s : Status) (buf :
     · split
       · simp [MicroOK, RespOK]
       · simp only [MicroOK]
-        obtain ⟨i1, i2, i3, i4, i5, i6⟩ := hinv
-        refine ⟨by omega, by omega, (by first | rfl | trivial), ⟨i1, i2, i3, i4, i5, i6⟩, ?_⟩
+        obtain ⟨i0, i1, i2, i3, i4, i5, i6⟩ := hinv
+        refine ⟨by omega, by omega, (by first | rfl | trivial), ⟨i0, i1, i2, i3, i4, i5, i6⟩, ?_⟩
         intro _; simp; omega
 
 theorem micro_ok (ovf : Bool → Nat → Int) (st : St) (h : Handler) (s : Status) (buf : Bytes)
@@ -692,7 +728,7 @@ theorem run_ok {σ : Type} (ovf : Bool → Nat → Int) (oracle : σ → Nat →
         exact ⟨r, ws', hr, by rw [← hmax]; exact hok⟩
 
 theorem initSt_inv (ishead : Bool) (max : Nat) (buf : Bytes) : InvBuf (initSt ishead max) .readHeader buf := by
-  refine ⟨⟨by simp [initSt], by simp [initSt], ?_, ?_, ?_, ?_⟩, ?_⟩
+  refine ⟨⟨by simp [initSt], by simp [initSt], by simp [initSt], ?_, ?_, ?_, ?_⟩, ?_⟩
   · intro hc; exact absurd rfl hc
   · intro _; rfl
   · intro hc; cases hc
